@@ -1,7 +1,7 @@
 """Provider + consumer on the loop-back transport, driven by Mdib.tla behaviours (C01, C04 content, C06)."""
 from __future__ import annotations
 
-from .mdibharness import MAP_D, Projector, content
+from .mdibharness import MAP_D, MAPPINGS, Projector, content
 from .checks.mdibcommon import C03Replayer
 from .pair import Pair
 from .tlc import MachineryError
@@ -52,11 +52,12 @@ OBSERVABLES = {'metrics_by_handle': 'S', 'waveform_by_handle': 'S', 'alert_by_ha
 class MirrorSession(C03Replayer):
     """MdibReplayer on the provider MDIB of a Pair; records consumer projection, wire reports and observables."""
 
-    def __init__(self, handles, ctx_handles, hold_notifications=False, **pair_kw):
+    def __init__(self, handles, ctx_handles, hold_notifications=False, mapping='one', **pair_kw):
         install_clock()
-        self.pair = Pair(**pair_kw)
-        super().__init__(handles, ctx_handles, mdib=self.pair.mdib)
-        self.cproj = Projector(handles, ctx_handles)
+        fixture, map_d = MAPPINGS[mapping]
+        self.pair = Pair(fixture=fixture, **pair_kw)
+        super().__init__(handles, ctx_handles, mdib=self.pair.mdib, map_d=map_d)
+        self.cproj = Projector(handles, ctx_handles, map_d=map_d)
         self.cproj.tokens = self.proj.tokens          # common token table -> comparable tokens
         self.cproj.map_c = self.proj.map_c            # shared (uuid handles are learnt on the provider side)
         self.log_pos = len(self.pair.net.log)
